@@ -1,7 +1,7 @@
 #!/bin/bash
 # seedrun2.sh [Cxx ...]: round-2 variants straight from /tmp/seed2 (breaking b*, refactoring r*), via scratch copies (VERIF_REPO), /repo untouched
 cd /verif
-for d in /tmp/seed2/C*/out/*; do
+for d in ${SEED_ROOT:-/tmp/seed2}/C*/out/*; do
   [ -f $d/patch.diff ] || continue
   pid=$(echo $d | cut -d/ -f4); k=$(basename $d)
   if [ $# -gt 0 ] && [[ ! " $* " =~ " $pid " ]]; then continue; fi
